@@ -471,6 +471,16 @@ func TestC16(t *testing.T) {
 					who = UniformDraw(rt, "who", 4)
 				}
 				op = c16Op{Kind: "feed", Who: who, Asset: pick(rt, "asset", c16Assets), Source: pick(rt, "source", c16Sources), Price: fmt.Sprintf("%d.%02d", 1+UniformDraw(rt, "pi", 500), UniformDraw(rt, "pf", 100))}
+				// markets often stand still: a third of the feeds repeat, value for value, an earlier feed of this history
+				// (same asset and source when there is one) – the repeated feed is nevertheless the newest one
+				if UniformDraw(rt, "refeed", 3) == 0 {
+					for i := len(m.Ops) - 1; i >= 0; i-- {
+						if o := m.Ops[i]; o.Kind == "feed" && o.Price != "" && (UniformDraw(rt, "refeed/any", 4) == 0 || (o.Asset == op.Asset && o.Source == op.Source)) {
+							op.Asset, op.Source, op.Price = o.Asset, o.Source, o.Price
+							break
+						}
+					}
+				}
 			case 7:
 				op = c16Op{Kind: "feedmulti", Who: 3, Asset: pick(rt, "asset", c16Assets), Source: pick(rt, "source", c16Sources), Asset2: pick(rt, "asset2", c16Assets), Src2: pick(rt, "source2", c16Sources), Price: fmt.Sprintf("%d", 1+UniformDraw(rt, "pi", 500))}
 			case 8, 9, 10, 11:
